@@ -42,7 +42,10 @@ Prims ==
   \cup {[k |-> "genprism", hh |-> 2, lo |-> <<<<-2, -1>>, <<2, -1>>, <<0, 2>>>>, hi |-> <<<<-1, -1>>, <<1, -1>>, <<0, 1>>>>],
         [k |-> "genprism", hh |-> 1, lo |-> <<<<0, 2>>, <<2, -1>>, <<-2, -1>>>>, hi |-> <<<<0, 2>>, <<2, -1>>, <<-2, -1>>>>],   \* clockwise
         [k |-> "genprism", hh |-> 2, lo |-> <<<<-2, -2>>, <<2, -2>>, <<2, 2>>, <<-2, 2>>>>, hi |-> <<<<0, 0>>, <<0, 0>>, <<0, 0>>, <<0, 0>>>>], \* pyramid
-        [k |-> "genprism", hh |-> 2, lo |-> <<<<-2, -2>>, <<2, -2>>, <<2, 2>>, <<-2, 2>>>>, hi |-> <<<<-2, -1>>, <<1, -2>>, <<2, 1>>, <<-1, 2>>>>]} \* twisted
+        [k |-> "genprism", hh |-> 2, lo |-> <<<<-2, -2>>, <<2, -2>>, <<2, 2>>, <<-2, 2>>>>, hi |-> <<<<-2, -1>>, <<1, -2>>, <<2, 1>>, <<-1, 2>>>>], \* twisted
+        [k |-> "genprism", hh |-> 2, lo |-> <<<<1, 0>>, <<1, 0>>, <<1, 0>>>>, hi |-> <<<<-2, 2>>, <<2, 1>>, <<-1, -2>>>>],   \* apex at -z, clockwise
+        [k |-> "genprism", hh |-> 1, lo |-> <<<<-2, 0>>, <<2, 0>>, <<2, 0>>, <<-2, 0>>>>, hi |-> <<<<-2, -2>>, <<2, -2>>, <<2, 2>>, <<-2, 2>>>>], \* ridge at -z
+        [k |-> "genprism", hh |-> 1, lo |-> <<<<-2, 2>>, <<2, 2>>, <<2, -2>>, <<-2, -2>>>>, hi |-> <<<<-2, 1>>, <<2, 1>>, <<2, 1>>, <<-2, 1>>>>]}  \* ridge at +z, clockwise
 Wedges == {[k |-> "wedge", s |-> s, w |-> w] : s \in 0..3, w \in 1..2}
 Eas == {<<>>} \cup {<<s, w>> : s \in -1..4, w \in 1..3}
 Solids1 ==
